@@ -1,6 +1,6 @@
 import Tbfmm.Generated.OmpTasks
 /-!
-Theorems over the tables regenerated from /repo/src on every run (OpenMP executors).
+Theorems over the tables regenerated from /repo/src on every run (OpenMP, Specx and StarPU executors).
 -/
 namespace Tbfmm.Generated
 
@@ -12,5 +12,26 @@ theorem omp_capture_safe : ∀ t ∈ ompTasks, t.captureSafe = true := by decide
 
 /-- every task is created with an explicit data-sharing default and at least one written buffer -/
 theorem omp_tasks_wellformed : ∀ t ∈ ompTasks, (t.defaultShared = true ∧ t.commutes ≠ [] ∧ t.calls ≠ []) := by decide
+
+/-- declared accesses cover the actual accesses of every task of both Specx executors -/
+theorem specx_declared_covers_actual : ∀ t ∈ specxTasks, t.covers wrapperFootprints = true := by decide
+
+/-- no task of either Specx executor uses a variable whose lifetime may have ended when it runs -/
+theorem specx_capture_safe : ∀ t ∈ specxTasks, t.captureSafe = true := by decide
+
+/-- the task bodies receive constant views exactly for the declared reads, and every task declares a written buffer -/
+theorem specx_tasks_wellformed : ∀ t ∈ specxTasks, (t.modesMatch = true ∧ t.commutes ≠ [] ∧ t.calls ≠ []) := by decide
+
+/-- StarPU: submitted handles match the codelets' modes and cover, buffer by buffer, what the callbacks' wrapper calls touch -/
+theorem starpu_declared_covers_actual :
+    ∀ t ∈ starpuTasks, t.covers wrapperFootprints starpuLayouts starpuCodelets starpuCallbacks = true := by decide
+
+/-- StarPU: everything a task is handed outlives it, and is unpacked with the types it was packed with -/
+theorem starpu_values_safe : ∀ t ∈ starpuTasks, t.valuesSafe starpuFiles starpuCodelets starpuCallbacks = true := by decide
+
+/-- StarPU: every codelet is used by a submission, and every submission writes some buffer -/
+theorem starpu_tasks_wellformed :
+    (∀ c ∈ starpuCodelets, starpuTasks.any (fun t => t.file == c.file && t.codelet == c.name) = true) ∧
+    (∀ t ∈ starpuTasks, t.handles.any (·.1) = true) := by decide
 
 end Tbfmm.Generated
